@@ -55,7 +55,7 @@ inductive TMode | sync | go | later | never | twice | goTwice | panicBefore | pa
 structure TaskSpec where
   mode : TMode
   err : Bool
-  append : Bool
+  rmode : Char   -- a: received args ++ [val], r: [val], z: no results, u: one nil value (shown as 999999), m: three values
   val : Nat
   deriving Repr
 
@@ -68,7 +68,7 @@ def parseTask (s : String) : Option TaskSpec :=
       | _ => none
     match mode, takeDigits rest 0 false with
     | some mode, some (v, []) =>
-      if (e == '0' || e == '1') && (r == 'a' || r == 'r') then some ⟨mode, e == '1', r == 'a', v⟩ else none
+      if (e == '0' || e == '1') && "arzum".toList.contains r then some ⟨mode, e == '1', r, v⟩ else none
     | _, _ => none
   | _ => none
 
@@ -77,7 +77,13 @@ def parseTasks (ws : List String) : Option (List TaskSpec) :=
   | none => none
   | some v => (splitNonEmpty v ",").mapM parseTask
 
-def TaskSpec.result (t : TaskSpec) (args : List Nat) : List Nat := if t.append then args ++ [t.val] else [t.val]
+def TaskSpec.result (t : TaskSpec) (args : List Nat) : List Nat :=
+  match t.rmode with
+  | 'a' => args ++ [t.val]
+  | 'z' => []
+  | 'u' => [999999]
+  | 'm' => [t.val, t.val + 1, t.val + 2]
+  | _ => [t.val]
 def TaskSpec.result2 (t : TaskSpec) : List Nat := [t.val + 1000]
 
 structure WChain where
@@ -353,7 +359,12 @@ def acceptS (s : AccS) (ws : List String) (o : SObs) : Except String AccS := do
       | some cmds => pure (addCommands s cmds)
       | none => throw "bad-op"
     | some "start" => pure { s with started := true }
-    | some "release" => pure { s with held := false }
+    | some "release" =>
+      -- `release post=K`: the closure the consumer was parked in posts K closures to its own scheduler
+      -- (poster 99 is the consumer goroutine) before it returns
+      match kvNat ws "post" with
+      | some k => pure (addCommands { s with held := false } [(99, List.replicate k .normal)])
+      | none => pure { s with held := false }
     | some "stop" => pure { s with stopped := true }
     | _ => throw "bad-op"
   if ws.head? == some "stop" && o.stop != some "ok" then throw "Stop did not return normally"
@@ -467,7 +478,11 @@ def replayOp (rank : Nat → Nat → Nat) (r : RP) (rec : OpRec) : Except String
     | some cmds => for (p, ks) in cmds do r := r.addKinds p ks
     | none => throw "bad-op"
   | some "start" => r := { r with started := true }
-  | some "release" => r := { r with held := false }
+  | some "release" =>
+    r := { r with held := false }
+    match kvNat rec.ws "post" with
+    | some k => r := r.addKinds 99 (List.replicate k .normal)
+    | none => pure ()
   | some "stop" =>
     let m ← fireE r.m .stop fun _ => "stop"
     r := { r with m := m, stopped := true }
@@ -665,6 +680,8 @@ def stepAccept (s : St) (line : String) : St × String :=
         if m == obs then ({ s with w := w' }, "ok")
         else ({ s with w := w', dead := true }, "REJECT model: " ++ m)
       | .sche =>
+        if obs == "bad-op" && ws.head? == some "release" then (s, "ok")   -- the harness refused a re-entrant post without room
+        else
         match parseSObs obs with
         | none => ({ s with dead := true }, "REJECT unparsable observation")
         | some o =>
@@ -870,7 +887,12 @@ def specS (s : SpecS) (ws : List String) (o : SObs) : Except String SpecS := do
           s.setPoster { q with kinds := q.kinds ++ ks }) s)
       | none => throw "bad-op"
     | some "start" => pure { s with started := true }
-    | some "release" => pure { s with held := false }
+    | some "release" =>
+      match kvNat ws "post" with
+      | some k =>
+        let q := (s.posters.find? (·.id = 99)).getD { id := 99 }
+        pure ({ s with held := false }.setPoster { q with kinds := q.kinds ++ List.replicate k Kind.normal })
+      | none => pure { s with held := false }
     | some "stop" => pure { s with stopped := true }
     | _ => throw "bad-op"
   -- executions: exactly once, in posting order, on the consumer goroutine
@@ -1018,7 +1040,9 @@ def stepSpec (s : SpecS) (line : String) : SpecS × String :=
       let s := if postsPanic ws then { s with panicPosted := true } else s
       let r : Except String SpecS := match s.kind with
         | .wf => specW s ws obs
-        | .sche => match parseSObs obs with
+        | .sche =>
+          if obs == "bad-op" && ws.head? == some "release" then .ok s else
+          match parseSObs obs with
           | some o => specS s ws o
           | none => .error (viol "unparsable-observation" obs)
         | .multi => (specM s.svcs ws obs).map fun v => { s with svcs := v }
